@@ -761,3 +761,40 @@ MUTANTS += [
             this->z.multiply2(this->z);
             this->z.multiply(this->z, h);""")]),
 ]
+# ---- R-POLY/exp and R-POLY/cyclotomic (exponent-domain value numbering)
+MUTANTS += [
+ dict(name='c01-final-exp-frobenius-power', prop='C01', expect='exp|final_exponentiation',
+      edits=[('src/bls12_381/pairing.cpp', 'y1.frobenius_map(y1, 3);', 'y1.frobenius_map(y1, 1);')]),
+ dict(name='c01-final-exp-dropped-conjugate', prop='C01', expect='exp|final_exponentiation',
+      edits=[('src/bls12_381/pairing.cpp', '        y1.conjugate(y1);\n        y3.multiply(y3, y1);\n        y1.conjugate(y1);', '        y3.multiply(y3, y1);')]),
+ dict(name='c01-final-exp-x-loop-skips-low-bit', prop='C01', expect='exp|final_exponentiation',
+      edits=[('src/bls12_381/pairing.cpp', 'exp_by_x_restrict<0, false>(y1, y0);', 'exp_by_x_restrict<1, false>(y1, y0);')]),
+ dict(name='c01-final-exp-easy-part-frobenius-1', prop='C01', expect='exp|final_exponentiation',
+      edits=[('src/bls12_381/pairing.cpp', 'r.frobenius_map(r, 2);', 'r.frobenius_map(r, 1);')]),
+ dict(name='c01-benign-final-exp-temp', prop='C01', benign=True, expect='',
+      edits=[('src/bls12_381/pairing.cpp', '        y2.multiply(y2, y0);\n        y2.multiply(y2, r);', '        Fq12 y0r;\n        y0r.multiply(y0, r);\n        y2.multiply(y2, y0r);')]),
+ dict(name='c04-cyclotomic-square-wrong-operand', prop='C04', expect='cyclo|Fq12::square_cyclotomic',
+      edits=[('src/bls12_381/fq12_cyclotomic.cpp', '        t6.subtract(t5, a.c0.c1);\n        t6.multiply2(t6);\n        this->c0.c1.add(t6, t5);', '        t6.subtract(t5, a.c0.c2);\n        t6.multiply2(t6);\n        this->c0.c1.add(t6, t5);')]),
+ dict(name='c04-cyclotomic-square-aliasing', prop='C04', expect='cyclo|Fq12::square_cyclotomic|out==a',
+      edits=[('src/bls12_381/fq12_cyclotomic.cpp', '        Fq2 c0c0;\n        c0c0.copy(a.c0.c0);\n        this->c0.c0.subtract(t0, c0c0);', '        this->c0.c0.subtract(t0, a.c0.c0);'),
+             ('src/bls12_381/fq12_cyclotomic.cpp', '        this->c0.c0.multiply2(this->c0.c0);\n        this->c0.c0.add(this->c0.c0, t0);\n\n        this->c1.c1.add(a.c1.c1, t1);',
+              '        this->c0.c0.multiply2(this->c0.c0);\n        this->c0.c0.add(this->c0.c0, t0);\n        t1.add(a.c0.c0, a.c1.c1); t1.square(t1); t1.subtract(t1, t2); t1.subtract(t1, t3);\n\n        this->c1.c1.add(a.c1.c1, t1);')]),
+ dict(name='c04-map-to-cyclotomic-frobenius-1', prop='C04', expect='exp|map_to_cyclotomic',
+      edits=[('src/bls12_381/fq12_cyclotomic.cpp', 't.frobenius_map(*this, 2);', 't.frobenius_map(*this, 1);')]),
+ dict(name='c07-gtexp-conjugate-parity', prop='C07', expect='exp|exponentiate_gt',
+      edits=[('src/bls12_381/fq12_cyclotomic.cpp', 'if (((i & 0x1) == 0) != bls_x_is_negative) {', 'if (((i & 0x1) == 0) == bls_x_is_negative) {')]),
+ dict(name='c07-benign-gtexp-square-inside-digit-loop', prop='C07', expect='',
+      edits=[('src/bls12_381/fq12_cyclotomic.cpp', '            if (found_one) {\n                this->square_cyclotomic(*this);\n            }\n            for (unsigned int j = 0; j != 4; j++) {\n                if (scalar.c[j].bit(i)) {',
+              '            for (unsigned int j = 0; j != 4; j++) {\n                if (found_one && j == 0) {\n                    this->square_cyclotomic(*this);\n                }\n                if (scalar.c[j].bit(i)) {')], benign=True),
+ dict(name='c07-gtexp-found-one-set-late', prop='C07', expect='exp|exponentiate_gt',
+      edits=[('src/bls12_381/fq12_cyclotomic.cpp', '                    this->multiply(*this, t[j]);\n                    found_one = true;', '                    this->multiply(*this, t[j]);\n                    found_one = (j != 3);')]),
+]
+# ---- round-4 seeded changes
+MUTANTS += [
+ dict(name='seed-C13-message-hash-reduce', prop='C13', patch='seeded/C13-message-hash-reduce/patch.diff', expect='VIOLATION property=C13'),
+ dict(name='seed-C19-setlength-sibling-wrapper', prop='C19', patch='seeded/C19-setlength-via-sibling-wrapper/patch.diff', expect='R-WRAP'),
+ dict(name='seed-C03-multiply2-dead-branch', prop='C03', patch='seeded/C03-multiply2-dead-branch/patch.diff', expect='deadarm'),
+ dict(name='seed-C18-add-z3-reads-b', prop='C18', patch='seeded/C18-add-z3-reads-b-after-write/patch.diff', expect='R-ALIAS'),
+ dict(name='seed-C17-decode-branch-on-buffer-flag', prop='C17', patch='seeded/C17-decode-branch-on-buffer-flag/patch.diff', expect='VIOLATION property=C17'),
+ dict(name='seed-C20-lazy-dispatch-init', prop='C20', patch='seeded/C20-lazy-dispatch-init/patch.diff', expect='R-EFFECT'),
+]
